@@ -1,7 +1,7 @@
 (* C11 — Cell expressions denote the Boolean function MCNP assigns to them.
    Only restatements; proofs are in C11/Proofs.v. Spec vocabulary: C11/Spec.v. *)
 From Coq Require Import List NArith ZArith Bool String Ascii Lia.
-From T4V Require Import Base.Str C11.Model C11.Spec C11.Proofs C11.LexProofs C11.Layout.
+From T4V Require Import Base.Str C11.Model C11.Spec C11.Proofs C11.LexProofs C11.Layout C11.Pipeline.
 Import ListNotations.
 Close Scope string_scope.
 Open Scope list_scope.
@@ -47,10 +47,7 @@ Print Assumptions C11_pot_complement_lattice_empty.
 Theorem C11_parse_print_tokens : forall e : mexpr, admissible e = true ->
   exists a, parse_tokens (toks 0 e) = Ok a /\ sem e = Ok a /\
             forall cd sg, aden cd sg a = mden cd sg e.
-Proof.
-  intros e H. destruct (parse_print e H) as (a & Ep & Es). exists a. repeat split; auto.
-  destruct (parse_print_den e H) as (a' & Ep' & D). rewrite Ep in Ep'. now injection Ep' as <-.
-Qed.
+Proof. exact parse_print_tokens. Qed.
 Print Assumptions C11_parse_print_tokens.
 
 (* the layout lemma: the lexer reads EVERY admissible writing of a token
@@ -91,6 +88,58 @@ Theorem C11_layout_exists : forall e : mexpr, facets_ok e = true ->
 Proof. exact layout_exists. Qed.
 Print Assumptions C11_layout_exists.
 
+(* ---- the property end to end (model level) ----
+   any table of admissible cells whose complements are well founded, any
+   admissible expression referring to it, written in any layout of the family:
+   the text is accepted, complement elimination terminates with a
+   complement-free tree, and for EVERY sense assignment the tree holds exactly
+   where MCNP says the expression holds ([cd] = membership in the table's cells
+   as MCNP defines it) *)
+Theorem C11_pipeline : forall mc cells rk (e : mexpr) (ws : written) (trail k : nat),
+  parsed_table mc cells -> table_ranked mc rk ->
+  admissible e = true -> mrefs (fun m => (exists e', mc m = Some e') /\ rk m < k) e ->
+  wf_written ws = true -> tokens_written ws = toks 0 e ->
+  exists a F t, get_ast (render ws trail) = Ok a /\
+    (forall f, F <= f -> pot_complement f cells a = Ok t) /\ a_plain t = true /\
+    forall sg cd, mcnp_meaning mc sg cd -> aden cd sg t = mden cd sg e.
+Proof. exact pipeline. Qed.
+Print Assumptions C11_pipeline.
+
+(* ---- what happens outside [admissible] ----
+   parser o printer is the function [psem] for EVERY expression (errors
+   included, in the order the parser meets them) ... *)
+Theorem C11_parse_psem : forall (e : mexpr) (ws : written) (trail : nat),
+  wf_written ws = true -> tokens_written ws = toks 0 e -> get_ast (render ws trail) = psem e.
+Proof. exact get_ast_render_psem. Qed.
+Print Assumptions C11_parse_psem.
+
+(* ... so the accepted expressions are exactly those with no cell complement
+   below a #( ) and no complement right after a colon ... *)
+Theorem C11_accepted_iff : forall (e : mexpr) (ws : written) (trail : nat),
+  wf_written ws = true -> tokens_written ws = toks 0 e ->
+  ((exists a, get_ast (render ws trail) = Ok a) <->
+   no_cell_under_not e && no_colon_hash e = true).
+Proof. exact accepted_written_iff. Qed.
+Print Assumptions C11_accepted_iff.
+
+(* ... and each defect class, alone, gives its own exception: every well-formed
+   expression with a #n below #( ) raises AttributeError, every one with a
+   complement right after a colon is a parse error (known findings
+   nested_complement_of_cellref, complement_after_colon) *)
+Theorem C11_nested_rejected : forall (e : mexpr) (ws : written) (trail : nat),
+  wf_written ws = true -> tokens_written ws = toks 0 e ->
+  no_colon_hash e = true -> no_cell_under_not e = false ->
+  get_ast (render ws trail) = Err EAttribute.
+Proof. exact nested_rejected_written. Qed.
+Print Assumptions C11_nested_rejected.
+
+Theorem C11_colon_hash_rejected : forall (e : mexpr) (ws : written) (trail : nat),
+  wf_written ws = true -> tokens_written ws = toks 0 e ->
+  no_cell_under_not e = true -> no_colon_hash e = false ->
+  get_ast (render ws trail) = Err EParse.
+Proof. exact colon_hash_rejected_written. Qed.
+Print Assumptions C11_colon_hash_rejected.
+
 (* [admissible] excludes exactly two classes of well-formed MCNP expressions
    that the code rejects (genuine defects, known findings): *)
 Theorem C11_nested_refuted :
@@ -123,6 +172,38 @@ Example C11_example_layout :
   render ws 1 = "  #  (+01:-2.3)#005  :4 "%string /\
   print e = "#( 1 : -2.3 ) #5 : 4"%string.
 Proof. cbv zeta. repeat split; vm_compute; reflexivity. Qed.
+
+(* redundant parentheses are part of the spec language *)
+Example C11_example_paren :
+  let e := MAnd (MParen (MParen (MLit 1 None))) (MParen (MOr (MLit 2 None) (MParen (MNotCell 3)))) in
+  admissible e = true /\ print e = "( ( 1 ) ) ( 2 : ( #3 ) )"%string /\
+  get_ast "((1))(2:(#3))"%string = Ok (AAnd (ASurf 1 None) (AOr (ASurf 2 None) (ACompl 3))).
+Proof. cbv zeta. repeat split; vm_compute; reflexivity. Qed.
+
+(* non-vacuity of the end-to-end theorem: cells 1 = "-1 2", 2 = "#1 : 3",
+   and the expression "#2 #1" *)
+Example C11_example_pipeline :
+  let mc := fun n : N => match n with
+     | 1%N => Some (MAnd (MLit (-1) None) (MLit 2 None))
+     | 2%N => Some (MOr (MNotCell 1) (MLit 3 None))
+     | _ => None end in
+  let cells := fun n : N => match n with
+     | 1%N => Some (mkCell (AAnd (ASurf (-1) None) (ASurf 2 None)) false)
+     | 2%N => Some (mkCell (AOr (ACompl 1) (ASurf 3 None)) false)
+     | _ => None end in
+  let e := MAnd (MNotCell 2) (MNotCell 1) in
+  parsed_table mc cells /\ table_ranked mc N.to_nat /\ admissible e = true /\
+  mrefs (fun m => (exists e', mc m = Some e') /\ N.to_nat m < 3) e.
+Proof.
+  cbv zeta. split; [|split; [|split]].
+  - intros n. destruct n as [|[[|[]|]|[|[]|]|]]; try reflexivity.
+    + split; [reflexivity|]. eexists. split; reflexivity.
+    + split; [reflexivity|]. eexists. split; reflexivity.
+  - intros n e H. destruct n as [|[[|[]|]|[|[]|]|]]; try discriminate; injection H as <-; cbn;
+      repeat split; try (eexists; reflexivity); lia.
+  - reflexivity.
+  - cbn. repeat split; try (eexists; reflexivity); lia.
+Qed.
 
 (* non-vacuity of the complement theorem: a three-cell table *)
 Example C11_example_table :
